@@ -551,6 +551,18 @@ func checkC02(c *core.Ctx) {
 	for _, q := range handRuleDocs {
 		reqs = append(reqs, valReq{Kind: "validate", SDL: handRuleSDL, Query: q})
 	}
+	// ill-formed type systems (types that exist through extensions only, with invalid content) paired with documents
+	// that touch the ill-formed spot: if such a type system ever loads, validation must still return
+	for _, p := range [][2]string{
+		{"type Query { foo: Foo } extend type Foo { bar: Missing }", "{ foo { bar bar } }"},
+		{"type Query { u: U } type A { x: Int } extend union U = A | Ghost", "{ u { ... on A { x } ... on Ghost { x } } }"},
+		{"type Query { u: U } type A { x: Int } extend union U = A | Ghost", "{ u { x } }"},
+		{"type Query { f(i: In): Int } extend input In @d directive @d on INPUT_OBJECT", "{ f(i: {a: 1}) }"},
+		{"type Query { i: I } extend interface I { x: Gone } type T implements I { x: Int }", "{ i { x { y } ... on T { x } } }"},
+		{"type Query { e(v: E): E } extend enum E @d directive @d on ENUM", "{ e(v: A) }"},
+	} {
+		reqs = append(reqs, valReq{Kind: "validate", SDL: p[0], Query: p[1]}, valReq{Kind: "load", SDL: p[0]})
+	}
 	// (c) adversarial families
 	for _, f := range adversaryFamilies {
 		for _, n := range sizes {
